@@ -41,6 +41,8 @@ func c10(c *Ctx) {
 	sState(c, "R7/S-STATE")
 	c10R9(c, "R9")
 	sCommitCoversConfig(c, "R10/S-COMMITCFG")
+	c02R1(c, "R11/C02.R1")
+	c02R2(c, "R11/C02.R2")
 }
 
 func c10R1(c *Ctx, rule string) {
